@@ -3,6 +3,7 @@ package main
 import (
 	"fmt"
 	"math/bits"
+	"sort"
 	"strings"
 )
 
@@ -19,9 +20,19 @@ type T struct {
 	id   int
 }
 
+type termKey struct {
+	op         string
+	w, p1, p2  int
+	name       string
+	c          uint64
+	n          int
+	a0, a1, a2 int
+}
+
 var (
-	termTab = map[string]*T{}
-	termSeq int
+	termTab  = map[string]*T{}
+	termTabK = map[termKey]*T{}
+	termSeq  int
 )
 
 func mask(w int) uint64 {
@@ -32,6 +43,25 @@ func mask(w int) uint64 {
 }
 
 func intern(t *T) *T {
+	if len(t.Args) <= 3 {
+		k := termKey{op: t.Op, w: t.W, p1: t.P1, p2: t.P2, name: t.Name, c: t.C, n: len(t.Args)}
+		if len(t.Args) > 0 {
+			k.a0 = t.Args[0].id
+		}
+		if len(t.Args) > 1 {
+			k.a1 = t.Args[1].id
+		}
+		if len(t.Args) > 2 {
+			k.a2 = t.Args[2].id
+		}
+		if o, ok := termTabK[k]; ok {
+			return o
+		}
+		termSeq++
+		t.id = termSeq
+		termTabK[k] = t
+		return t
+	}
 	var sb strings.Builder
 	sb.WriteString(t.Op)
 	fmt.Fprintf(&sb, "/%d/%d/%d/%s/%d", t.W, t.P1, t.P2, t.Name, t.C)
@@ -48,12 +78,31 @@ func intern(t *T) *T {
 	return t
 }
 
-func BV(w int, c uint64) *T { return intern(&T{Op: "const", W: w, C: c & mask(w), IsC: true}) }
-func BoolC(b bool) *T {
-	if b {
-		return intern(&T{Op: "const", W: 0, C: 1, IsC: true})
+var smallBV [65][256]*T
+
+func BV(w int, c uint64) *T {
+	c &= mask(w)
+	if c < 256 && w <= 64 {
+		if t := smallBV[w][c]; t != nil {
+			return t
+		}
+		t := intern(&T{Op: "const", W: w, C: c, IsC: true})
+		smallBV[w][c] = t
+		return t
 	}
-	return intern(&T{Op: "const", W: 0, C: 0, IsC: true})
+	return intern(&T{Op: "const", W: w, C: c, IsC: true})
+}
+var boolT, boolF *T
+
+func BoolC(b bool) *T {
+	if boolT == nil {
+		boolT = intern(&T{Op: "const", W: 0, C: 1, IsC: true})
+		boolF = intern(&T{Op: "const", W: 0, C: 0, IsC: true})
+	}
+	if b {
+		return boolT
+	}
+	return boolF
 }
 func Var(name string, w int) *T { return intern(&T{Op: "var", W: w, Name: name}) }
 func App(name string, w int, args ...*T) *T {
@@ -289,6 +338,53 @@ func Bin(op string, a, b *T) *T {
 	case "bvshl", "bvlshr", "bvashr":
 		if b.IsC && b.C == 0 {
 			return a
+		}
+	case "bvudiv", "bvsdiv":
+		if b.IsC && b.C == 1 {
+			return a
+		}
+	case "bvurem":
+		if b.IsC && b.C == 1 {
+			return BV(w, 0)
+		}
+	}
+	switch op {
+	case "bvor":
+		// canonical form of or-chains (byte assembly is written in both orders in the code base): flatten, sort, rebuild
+		var leaves []*T
+		var flat func(t *T)
+		flat = func(t *T) {
+			if t.Op == "bvor" && !t.IsC {
+				flat(t.Args[0])
+				flat(t.Args[1])
+				return
+			}
+			leaves = append(leaves, t)
+		}
+		flat(a)
+		flat(b)
+		if len(leaves) > 2 && len(leaves) <= 16 {
+			sort.Slice(leaves, func(i, j int) bool { return leaves[i].id < leaves[j].id })
+			r := leaves[0]
+			for _, l := range leaves[1:] {
+				if l == r {
+					continue
+				}
+				x, y := r, l
+				r = intern(&T{Op: "bvor", W: w, Args: []*T{x, y}})
+			}
+			return r
+		}
+		if a.id > b.id {
+			a, b = b, a
+		}
+	case "bvand", "bvxor", "bvmul":
+		if a.id > b.id {
+			a, b = b, a
+		}
+	case "bvadd":
+		if !a.IsC && !b.IsC && a.id > b.id {
+			a, b = b, a
 		}
 	}
 	return intern(&T{Op: op, W: w, Args: []*T{a, b}})
